@@ -3,6 +3,7 @@
 Not a fixpoint analysis: loop-carried values are 'unknown' (None) and can never discharge anything; phi nodes
 take the union of their branches; call results come from a frozen table (one reason per line)."""
 import re
+from . import facts as _facts_mod
 
 from .facts import strip, render, phi_branch_conditions
 
@@ -411,6 +412,12 @@ def _array_column(e):
             if len(br) != 1:
                 return None
             x = br[0]
+        elif x[0] == 'const' and x[2] is None and str(x[3]).startswith('const ') and x[3][6:] in getattr(_facts_mod.CURRENT, 'bodies', {}):
+            # a `const TABLE: [..; N]` item: its value is what the const body returns
+            kb = _facts_mod.CURRENT.bodies[x[3][6:]]
+            if kb.kind != 'const' or kb.loops():
+                return None
+            x = kb.ret_expr()
         else:
             break
     if x[0] != 'aggr' or x[1] != 'array' or 'elem' not in path:
@@ -427,6 +434,8 @@ def _array_column(e):
                 cur = cur[1]
             if cur[0] == 'aggr' and pj.isdigit() and int(pj) < len(cur[2]):
                 cur = cur[2][int(pj)]
+            elif cur[0] == 'aggr' and len(cur) > 3 and pj in (cur[3] or []):
+                cur = cur[2][cur[3].index(pj)]          # a row that is a small struct: the column is a named field
             else:
                 return None
         out.append(cur)
